@@ -301,6 +301,8 @@ def _setup(b, case):
     def frozen_time(I_, a, k):
         return now
     b.module('time').ns['time'] = Builtin('time.time', frozen_time)      # time does not advance during expiry
+    if not isinstance(now, SymVal):
+        b.pre_exec.append('import time; time.time = lambda: %r' % (now,))
     settings = Opaque('settings', {'get_value': lambda I_, o, a, k: max_age})
     settings.native = {'kind': 'data', 'returns': {'get_value': max_age}}
     return {'self': ls, 'settings': settings, '_now': now, '_max_age': max_age}
@@ -395,6 +397,8 @@ def _setup(b, case):
         if isinstance(bt, SymVal):
             b.assume(bt.t <= now.t)
     b.module('time').ns['time'] = Builtin('time.time', lambda I_, a, k: now)
+    if not isinstance(now, SymVal):
+        b.pre_exec.append('import time; time.time = lambda: %r' % (now,))
     settings = Opaque('settings', {'get_value': lambda I_, o, a, k: max_age})
     settings.native = {'kind': 'data', 'returns': {'get_value': max_age}}
     lib.injection_reset(b)
